@@ -11,6 +11,43 @@ def replay(case: dict):
     return c06.replay_pid("C07", case)
 
 
+def cylinder_identity(ck: Check, n: int):
+    """identity across the periodic boundary of a CYLINDRICAL grid: a droplet on the symmetry axis that moves by less than its size (and
+    less than the cut-off) across the periodic z boundary is continued by the same track, by both methods (repair D24: the library's own
+    metric along the axis, py-pde's wraps the wrong component)"""
+    import numpy as np
+    from pde import CylindricalSymGrid
+    from droplets.droplet_tracks import DropletTrackList
+    from droplets.droplets import SphericalDroplet
+    from droplets.emulsions import Emulsion, EmulsionTimeCourse
+
+    rng = ck.rng
+    for i in range(n):
+        L = rng.choice([8.0, 12.5])
+        zlo = rng.choice([0.0, -3.0])
+        grid = CylindricalSymGrid(4.0, [zlo, zlo + L], [4, 8], periodic_z=True)
+        r = rng.uniform(0.8, 1.4)
+        step = rng.uniform(0.2, 0.6)
+        z0 = zlo + L - rng.uniform(0.05, step)  # just below the upper end: the next frame is beyond it, i.e. near the lower end
+        zs = [z0 - step, z0, z0 + step, z0 + 2 * step]
+        frames = [Emulsion([SphericalDroplet(np.array([0.0, 0.0, zlo + (z - zlo) % L]), r), SphericalDroplet(np.array([0.0, 0.0, zlo + (z - zlo + L / 2) % L]), 0.5 * r)]) for z in zs]
+        etc = EmulsionTimeCourse(frames, [float(k) for k in range(len(zs))])
+        for method, kw in (("overlap", {}), ("distance", {"max_dist": 1.5 * step}), ("distance", {})):
+            ck.case(("cyl-identity", i, method, repr(kw), L, zlo, r, step, z0))
+            ck.count("cylinder_identity_across_periodic_z")
+            try:
+                tl = DropletTrackList.from_emulsion_time_course(etc, method=method, grid=grid, **kw)
+                lens = sorted(len(t) for t in tl)
+                radii_ok = all(len({round(float(d.radius), 12) for d in t.droplets}) == 1 for t in tl)
+            except Exception as e:  # noqa: BLE001
+                lens, radii_ok = f"raised {type(e).__name__}: {e}", False
+            if lens != [len(zs), len(zs)] or not radii_ok:
+                ck.fail(f"{method} {kw}: two droplets moving along the axis of a periodic cylinder (one across the periodic boundary) give tracks of lengths {lens}, expected two tracks of {len(zs)} frames each following one droplet",
+                        {"check": "identity_across_periodic_boundary", "grid": "CylindricalSymGrid", "method": method},
+                        {"kind": "cyl-identity", "grid": repr(grid), "radius": r, "z": [float(zlo + (z - zlo) % L) for z in zs], "method": method, **{k: float(v) for k, v in kw.items()}})
+
+
 def run(ck: Check):
     c06.run(ck, "C07")
+    cylinder_identity(ck, 6 if ck.quick else 60)
     ck.rule += "; the identity clauses are evaluated on histories whose frames are internally non-overlapping"
